@@ -92,7 +92,7 @@ type State struct {
 	callRes map[string][]Val
 	callArgs map[string][][]Val
 	focused map[int]bool
-	callLog []string
+	callLog []string // keys of the statically resolved calls, in order
 	path    []string
 	notes   []string
 	ghost   map[string]Val
@@ -141,6 +141,106 @@ type Exec struct {
 	pendingClo []Val
 	inlineDepth int
 	frameMode   bool
+	cons        map[string]*consPoint // consistency (anti-vacuity) points, by name
+	consOrder   []string
+	assertHit   map[string]bool
+}
+
+// consPoint is a point of the symbolic execution where a contract's assumptions were added to a path: after a
+// callee's postcondition, after a loop invariant, at a back edge, at a return. If the path was satisfiable before the
+// assumptions and is unsatisfiable after them on some visit, the assumed text is inconsistent (or the callee can never
+// return there) and everything proved beyond that point is vacuous: that is reported, never silently accepted.
+type consPoint struct {
+	ok     bool   // some visit was satisfiable after the assumptions
+	bad    string // script of a visit that was satisfiable before and unsatisfiable after
+	tries  int
+	okScr  string
+	src    string
+	reach  bool // (reachability points) point reached on some feasible path
+	visits int
+}
+
+func (x *Exec) solveLines(lines []string) string {
+	f, err := os.CreateTemp(scratchBase(), "cons*.smt2")
+	if err != nil {
+		return "unknown"
+	}
+	defer os.Remove(f.Name())
+	f.WriteString(x.header() + strings.Join(lines, "\n") + "\n(check-sat)\n")
+	f.Close()
+	r, _, _ := runSolver(solvers[0], f.Name(), 3)
+	x.pruned++
+	return r
+}
+
+func (x *Exec) consPointOf(name, src string) *consPoint {
+	if x.cons == nil {
+		x.cons = map[string]*consPoint{}
+	}
+	cp := x.cons[name]
+	if cp == nil {
+		cp = &consPoint{src: src}
+		x.cons[name] = cp
+		x.consOrder = append(x.consOrder, name)
+	}
+	return cp
+}
+
+// consistencyAfter checks, once per point until it succeeds, that the assumptions added since st.lines[:before] kept
+// a satisfiable path satisfiable.
+func (x *Exec) consistencyAfter(st *State, name, src string, before int) {
+	if x.frameMode || len(st.stack) == 0 {
+		return
+	}
+	cp := x.consPointOf(name, src)
+	if cp.ok || cp.bad != "" || cp.tries >= 12 {
+		return
+	}
+	cp.tries++
+	if x.solveLines(st.lines) != "unsat" {
+		cp.ok = true
+		cp.okScr = strings.Join(st.lines, "\n") + "\n"
+		return
+	}
+	if x.solveLines(st.lines[:before]) == "sat" {
+		cp.bad = strings.Join(st.lines, "\n") + "\n"
+	}
+}
+
+// reachPoint records that a return or a back edge was reached, and whether on a satisfiable path.
+func (x *Exec) reachPoint(st *State, name, src string) {
+	if x.frameMode {
+		return
+	}
+	cp := x.consPointOf(name, src)
+	cp.visits++
+	if cp.ok || cp.tries >= 40 {
+		return
+	}
+	cp.tries++
+	if x.solveLines(st.lines) != "unsat" {
+		cp.ok = true
+		cp.okScr = strings.Join(st.lines, "\n") + "\n"
+		return
+	}
+	cp.bad = strings.Join(st.lines, "\n") + "\n"
+}
+
+// emitConsistency turns the points into cover obligations: satisfied ones are recorded as covered, the others fail.
+func (x *Exec) emitConsistency(key string) {
+	for _, name := range x.consOrder {
+		cp := x.cons[name]
+		ob := &Obligation{Func: key, Kind: "cover", Name: key + "/cover:" + name, Props: x.fc.Props, Src: cp.src, Expect: "sat"}
+		switch {
+		case cp.ok:
+			ob.Script, ob.Result, ob.Solver = cp.okScr, "sat", "z3-new(inline)"
+		case cp.bad != "":
+			ob.Script = cp.bad
+		default:
+			continue // never reached with a satisfiable prefix: dead code under the contract, nothing assumed there
+		}
+		x.obs = append(x.obs, ob)
+	}
 }
 
 func (x *Exec) fresh(prefix string) string {
@@ -282,6 +382,11 @@ func (x *Exec) wellFormed(st *State, name, sort, sym, bound string) {
 	}
 	for _, f := range x.refTerms(elem, t, 0) {
 		st.add(fmt.Sprintf("(assert (forall (%s) (! (< (born %s) %s) :pattern (%s))))", binds, f, bound, f))
+		if strings.HasPrefix(f, "(s.arr ") {
+			// every stored slice is a well-formed slice value; the nil slice has one representation
+			sv := strings.TrimSuffix(strings.TrimPrefix(f, "(s.arr "), ")")
+			st.add(fmt.Sprintf("(assert (forall (%s) (! (and (>= (s.len %s) 0) (>= (s.off %s) 0) (<= (s.len %s) (s.cap %s)) (=> (= (s.arr %s) 0) (= %s (mk_slice 0 0 0 0)))) :pattern (%s))))", binds, sv, sv, sv, sv, sv, sv, sv))
+		}
 	}
 }
 
@@ -722,8 +827,41 @@ func (x *Exec) callModifies(c *ssa.CallCommon, mods map[string]bool) bool {
 		return false
 	}
 	if c.IsInvoke() {
-		if ms := x.methodSpec(c); ms != nil && (ms.Mode == "fn" || ms.Mode == "log" || ms.Mode == "dispatch") {
+		if ms := x.methodSpec(c); ms != nil && (ms.Mode == "fn" || ms.Mode == "log") {
 			return false
+		} else if ms != nil && ms.Mode == "dispatch" {
+			// the union of what the implementations' contracts may modify
+			all := false
+			for _, t := range x.implementers(c.Value.Type()) {
+				m := x.L.Prog.LookupMethod(t, c.Method.Pkg(), c.Method.Name())
+				if m == nil {
+					continue
+				}
+				fc, _ := x.contractOf(m)
+				if fc == nil && m.Synthetic != "" {
+					if sel := x.L.Prog.MethodSets.MethodSet(t).Lookup(c.Method.Pkg(), c.Method.Name()); sel != nil {
+						if fo, ok := sel.Obj().(*types.Func); ok {
+							if decl := x.L.Prog.FuncValue(fo); decl != nil {
+								m = decl
+								fc, _ = x.contractOf(decl)
+							}
+						}
+					}
+				}
+				if fc == nil {
+					continue
+				}
+				if fc.ModAll {
+					all = true
+					continue
+				}
+				for _, mi := range fc.Modifies {
+					for _, hn := range x.modHeapNames(mi, m, nil) {
+						mods[hn] = true
+					}
+				}
+			}
+			return all
 		}
 		return true
 	}
@@ -855,6 +993,9 @@ func (x *Exec) enterBlock(st *State, b, pred *ssa.BasicBlock) bool {
 		}
 	}
 	if back {
+		if spec != nil && len(st.stack) == 1 {
+			x.reachPoint(st, fmt.Sprintf("loop%d-body-completes", ord), "loop body reaches its back edge on a satisfiable path")
+		}
 		if spec != nil {
 			for _, stp := range spec.Steps {
 				env := x.specEnv(st, fr, nil)
@@ -890,9 +1031,13 @@ func (x *Exec) enterBlock(st *State, b, pred *ssa.BasicBlock) bool {
 		}
 	}
 	if spec != nil {
+		nb := len(st.lines)
 		for _, inv := range spec.Invariants {
 			t := x.evalBool(st, inv.SX, x.specEnv(st, fr, nil))
 			x.assume(st, t)
+		}
+		if len(st.stack) == 1 {
+			x.consistencyAfter(st, fmt.Sprintf("loop%d-invariant-consistent", ord), x.L.pos(b.Instrs[0].Pos()), nb)
 		}
 	}
 	if fr.loopSnap == nil {
